@@ -267,27 +267,48 @@ class Resolver:
             base = self.position(b[1], b[2], depth + 1)
             if base is None:
                 return None
-            # `next()` calls on l between its definition and here, all in straight-line code of the defining block
+            # `next()` calls on l that run between its definition and the site: earlier statements of the enclosing blocks,
+            # conditions of the enclosing ifs, scrutinees of the enclosing matches - all straight-line
             deff = b[2][-1]
             blk, di = deff.node, deff.extra
-            here = None
-            for f in path:
+            start = None
+            for i_, f in enumerate(path):
                 if f.kind == "block" and f.node is blk:
-                    here = f.extra
-            if here is None:
+                    start = i_
+            if start is None:
                 return None
-            n_next = 0
-            for st in blk["stmts"][di + 1:here]:
-                sub = st.get("init") if st["k"] == "Let" else st.get("e")
+
+            def count(sub):
+                k = 0
                 for x, pth in sites_with_path(sub or {}, lambda z: H.kind(z) == "MethodCall" and H.path_local(z.get("recv")) == l):
-                    if x["name"] in NEXT_LIKE or x["name"] in ("skip", "nth", "for_each", "collect", "count", "last"):
-                        if pth and any(fr.kind in ("for", "closure", "if", "arm") for fr in pth):
-                            return None
-                        if x["name"] != "next":
-                            return None
-                        n_next += 1
-                if st["k"] in ("Expr", "Semi") and H.kind(H.strip(st["e"])) == "For" and any(H.path_local(y) == l for y in H.walk(H.strip(st["e"])["iter"])):
+                    if x["name"] in ("clone", "by_ref", "peek"):
+                        continue
+                    if x["name"] != "next" or (pth and any(fr.kind in ("for", "closure", "if", "arm") for fr in pth)):
+                        return None
+                    k += 1
+                for x in H.walk(sub or {}):
+                    if H.kind(x) == "For" and any(H.path_local(y) == l for y in H.walk(x["iter"])):
+                        return None
+                return k
+            n_next = 0
+            for i_ in range(start, len(path)):
+                f = path[i_]
+                parts = []
+                if f.kind == "block":
+                    lo = di + 1 if f.node is blk else 0
+                    for st in f.node["stmts"][lo:f.extra]:
+                        parts.append(st.get("init") if st["k"] == "Let" else st.get("e"))
+                elif f.kind == "if":
+                    parts.append(f.node["cond"])
+                elif f.kind == "arm":
+                    parts.append(f.node["scrut"])
+                else:
                     return None
+                for sub in parts:
+                    c_ = count(sub)
+                    if c_ is None:
+                        return None
+                    n_next += c_
             return (base[0], base[1] + n_next)
         return None
 
@@ -873,3 +894,143 @@ def pratt_nonempty(ctx, rid, crates, G):
                 short = sorted(r for r in parents if r in G.rules and mandatory_children(G, r) <= index)
                 ctx.inst(rid, key, not short, "children of %s from position %d; kinds that can have no child there: %s" % (sorted(parents), index, short or "none"), H.loc(call))
     ctx.units["pratt_entry_sites"] = n
+
+
+COMMENT_KINDS = ("comment", "eol_comment", "inline_comment")
+
+
+def comment_slots_accepted(ctx, rid, crates, G):
+    """where a consumer keeps a child pair only if it has a given kind (`.filter(|p| p.as_rule() == Rule::k)`, `if let Some(p) = it.next()
+    && p.as_rule() == Rule::k`), every comment kind the grammar can put at that position is among the accepted kinds"""
+    ctx.rule(rid, "a child slot that is read through a test on its kind accepts every comment kind the grammar can put there (comment and eol_comment are different rules: a slot declared with one and read with the other silently loses the comment)", floor=2)
+    kinds = {k for k in COMMENT_KINDS if k in G.rules and G.ty(k) != "silent"}
+    n = 0
+    for c in crates:
+        for name, f in sorted(c.hir.items()):
+            if f.get("body") is None or "::tests::" in name or "parse::rules" in name:
+                continue
+
+            def pred(z):
+                if H.kind(z) == "MethodCall" and z["name"] == "filter" and z.get("args") and H.kind(H.strip(z["args"][0])) == "Closure" and "pest::iterators" in (z.get("recv_ty") or z["recv"].get("ty") or ""):
+                    return True
+                return H.kind(z) == "If"
+            k_ = 0
+            for node, path in sites_with_path(f["body"], pred):
+                R = Resolver(c, G, f)
+                R.all_crates, R.fn_name, R.pratt, R.site_path = crates, name, None, None
+                accepted, recv, rpath = None, None, path
+                if H.kind(node) == "MethodCall":
+                    clo = H.strip(node["args"][0])
+                    ps = [bn for p_ in clo.get("params", []) for bn in H.pat_binds(p_)]
+                    for cj in conjuncts_of(clo["body"]):
+                        t = rule_test(cj, lambda x: H.kind(H.strip(x)) == "MethodCall" and H.strip(x)["name"] == "as_rule" and H.path_local(H.strip(x)["recv"]) in ps)
+                        if t is not None and t[1]:
+                            accepted = set(t[0])
+                    recv = node["recv"]
+                else:
+                    cs = conjuncts_of(node["cond"])
+                    lets = [x for x in cs if H.kind(x) == "LetExpr" and H.pat_binds(x["pat"]) and any(H.last(v) == "Some" for v in H.pat_variants(x["pat"]))]
+                    for le in lets:
+                        nm = H.pat_binds(le["pat"])[0]
+                        for cj in cs:
+                            if cj is le:
+                                continue
+                            t = rule_test(cj, lambda x: H.kind(H.strip(x)) == "MethodCall" and H.strip(x)["name"] == "as_rule" and H.path_local(H.strip(x)["recv"]) == nm)
+                            if t is not None and t[1]:
+                                accepted, recv = set(t[0]), le["init"]
+                if accepted is None or recv is None or not (accepted & kinds):
+                    continue
+                P = R.pair(recv, rpath)
+                key = "%s#kind-test%d[%s]" % (name.replace("blots_core::", ""), k_, "|".join(sorted(accepted)))
+                k_ += 1
+                n += 1
+                if P is None:
+                    ctx.inst(rid, key, None, "the position of the tested pair was not resolved", H.loc(node))
+                    continue
+                lost = sorted((P & kinds) - accepted)
+                ctx.inst(rid, key, not lost, "kinds the grammar can put in this slot: %s; accepted: %s; comment kinds that are dropped: %s" % (sorted(P), sorted(accepted), lost or "none"), H.loc(node))
+    if n == 0:
+        ctx.inst(rid, "sites", None, "no kind-tested comment slot was found", None)
+
+
+DROPPING = {"skip", "take", "nth", "step_by", "skip_while", "take_while", "last", "truncate", "pop", "filter", "split_off", "drain", "retain", "remove", "nth_back", "rev"}
+BUFFER_EDITS = {"insert_str", "insert", "replace_range", "remove", "truncate", "drain", "retain", "clear", "split_off", "pop"}
+
+
+def comment_text_whole(ctx, rid, core):
+    """the formatter emits a comment field as a whole"""
+    ctx.rule(rid, "the text of a comment field (leading / trailing) is emitted whole: no printer skips, takes or filters lines or characters of it", floor=3)
+    for name, f in sorted(core.hir.items()):
+        if not name.startswith("blots_core::formatter::") or f.get("body") is None or "::tests::" in name:
+            continue
+        derived = set()
+        uses = 0
+        for x in H.walk(f["body"]):
+            init, pat = None, None
+            if isinstance(x, dict) and x.get("k") == "Let" and x.get("init") is not None:
+                init, pat = x["init"], x["pat"]
+            elif H.kind(x) == "LetExpr":
+                init, pat = x["init"], x["pat"]
+            elif H.kind(x) == "For":
+                init, pat = x["iter"], x["pat"]
+            if init is not None and any(H.kind(y) == "Field" and y["name"] in ("leading", "trailing") for y in H.walk(init)):
+                derived |= set(H.pat_binds(pat))
+                uses += 1
+        for _ in range(3):
+            for x in H.walk(f["body"]):
+                if isinstance(x, dict) and x.get("k") == "Let" and x.get("init") is not None and any(H.path_local(y) in derived for y in H.walk(x["init"]) if H.kind(y) == "Path"):
+                    derived |= set(H.pat_binds(x["pat"]))
+                if H.kind(x) == "For" and any(H.path_local(y) in derived for y in H.walk(x["iter"]) if H.kind(y) == "Path"):
+                    derived |= set(H.pat_binds(x["pat"]))
+        if not uses:
+            continue
+        bad = []
+        for x in H.walk(f["body"]):
+            if H.kind(x) == "MethodCall" and x["name"] in DROPPING:
+                r = x["recv"]
+                if any(H.path_local(y) in derived for y in H.walk(r) if H.kind(y) == "Path") or any(H.kind(y) == "Field" and y["name"] in ("leading", "trailing") for y in H.walk(r)):
+                    bad.append("%s() at %s" % (x["name"], H.loc(x)))
+        ctx.inst(rid, "%s#comment-text" % name.replace("blots_core::", ""), not bad, "%d use(s) of comment fields; operations that can drop part of the text: %s" % (uses, bad or "none"), H.loc(f["body"]))
+
+
+def driver_appends_only(ctx, rid, crates):
+    """a format driver builds its output front to back"""
+    ctx.rule(rid, "the drivers that assemble formatted output (CLI --format, wasm format_blots, the library's statement joiner) only append to their output buffer: text produced later is never inserted before text produced earlier", floor=2)
+    FMT = ("blots_core::formatter::format_expr", "blots_core::formatter::format_expr_impl")
+    n = 0
+    for c in crates:
+        for name, f in sorted(c.hir.items()):
+            if f.get("body") is None or "::tests::" in name or name.startswith("blots_core::formatter::format_") and False:
+                continue
+            if name.startswith("blots_core::"):
+                if not name.startswith("blots_core::formatter::join_"):
+                    continue
+            elif not any(H.kind(x) == "Call" and (x.get("def") or "") in FMT for x in H.walk(f["body"])):
+                continue
+            # the output buffers: String locals that receive formatted text (directly or through a local holding it)
+            formatted = set()
+            for x in H.walk(f["body"]):
+                if isinstance(x, dict) and x.get("k") == "Let" and x.get("init") is not None and any(H.kind(y) == "Call" and (y.get("def") or "") in FMT for y in H.walk(x["init"])):
+                    formatted |= set(H.pat_binds(x["pat"]))
+            if name.startswith("blots_core::"):
+                formatted |= {bn for p_ in f.get("params", []) for bn in H.pat_binds(p_)}
+
+            def is_string(t):
+                return (t or "").replace("&mut ", "").replace("&", "").strip() == "alloc::string::String"
+            buffers = set()
+            for x in H.walk(f["body"]):
+                if H.kind(x) == "MethodCall" and x["name"] in ("push_str", "push", "extend", "write_str") and is_string(x.get("recv_ty") or x["recv"].get("ty")):
+                    if any((H.kind(y) == "Path" and H.path_local(y) in formatted) or (H.kind(y) == "Call" and (y.get("def") or "") in FMT) for a_ in x.get("args", []) for y in H.walk(a_)):
+                        b_ = H.path_local(x["recv"])
+                        if b_:
+                            buffers.add(b_)
+            bad = []
+            for x in H.walk(f["body"]):
+                if H.kind(x) == "MethodCall" and x["name"] in BUFFER_EDITS and H.path_local(x["recv"]) in buffers and is_string(x.get("recv_ty") or x["recv"].get("ty")):
+                    bad.append("%s.%s() at %s" % (H.path_local(x["recv"]), x["name"], H.loc(x)))
+            if not buffers:
+                continue
+            n += 1
+            ctx.inst(rid, "%s#appends-only" % name.replace("blots_core::", ""), not bad, "edits of an output buffer other than appending: %s" % (bad or "none"), H.loc(f["body"]))
+    if n == 0:
+        ctx.inst(rid, "drivers", None, "no format driver was found", None)
